@@ -16,16 +16,16 @@ LEVEL_TEXT = ('every combination of payload shape (symlinks to outside files/dir
               'successful unlink/rmdir/rename/chmod/open-for-write whose resolved entry path lies outside them')
 LEVEL_NOTE = 'trusted: the shim\'s entry-path resolution (realpath of the parent + basename); running as root, so mode-000 directories do not block deletion'
 RULE = ('payload {link->outside file abs/rel, link->outside dir abs/rel, dangling, tree with outside links at depth 1,2,3, tree with mode-000 child dir, plain file} x info name '
-        '{plain, x.trashinfo.trashinfo, name with newline} x reach {direct home, XDG_DATA_HOME symlink, .Trash-uid symlink} x command {empty, empty 0, rm *, rm exact} x orphan-symlink '
+        '{plain, x.trashinfo.trashinfo, name with newline} x reach {direct home, XDG_DATA_HOME symlink, .Trash-uid symlink, Trash/info itself a symlink with a decoy files/ beside its target} x command {empty, empty 0, rm *, rm exact} x orphan-symlink '
         'payload {yes,no}; non-trivial = at least one deletion syscall was issued; distinct = (payload, name, reach, command, outcome)')
 PAYLOADS = ['lf-abs', 'lf-rel', 'ld-abs', 'ld-rel', 'dang', 'tree1', 'tree2', 'tree3', 'tree000', 'file']
 NAMES = ['plain', 'dbl', 'newline']
-REACH = ['direct', 'xdg-link', 'alt-link']
+REACH = ['direct', 'xdg-link', 'alt-link', 'info-link']
 CMDS = ['empty', 'empty0', 'rm-star', 'rm-exact']
 
 
 def dimensions(tier):
-    return {'payload': len(PAYLOADS), 'info_name': 3, 'reach': 3, 'command': 4, 'orphan_link': 2}
+    return {'payload': len(PAYLOADS), 'info_name': 3, 'reach': 4, 'command': 4, 'orphan_link': 2}
 
 
 def cases(tier):
@@ -74,17 +74,32 @@ def run_case(c):
         env['XDG_DATA_HOME'] = '/home/u/xdg'
         td, phys = '/home/u/xdg/Trash', '/home/u/realxdg/Trash'
         rel = False
+    elif c['reach'] == 'info-link':
+        td = phys = scen.HOME_TRASH
+        rel = False
     else:
         W.dir('/mnt/v1/realtrash', mode=0o700).link('/mnt/v1/.Trash-0', 'realtrash')
         td, phys = '/mnt/v1/.Trash-0', '/mnt/v1/realtrash'
         rel = True
-    scen.add_trash_dir(W, phys)
+    if c['reach'] == 'info-link':
+        # Trash/info -> /store/info ; a decoy /store/files/<name> sits next to the link target and must never be touched
+        W.dir(phys, mode=0o700).dir(phys + '/files', mode=0o700).dir('/store/info', mode=0o700).link(phys + '/info', '/store/info')
+        W.dir('/store/files')
+    else:
+        scen.add_trash_dir(W, phys)
     nm = {'plain': 'victim', 'dbl': 'victim.trashinfo', 'newline': 'vic\ntim'}[c['nm']]
     loc = '/home/u/w/orig-name' if not rel else 'w/orig-name'
-    W.file('%s/info/%s.trashinfo' % (phys, nm), '[Trash Info]\nPath=%s\nDeletionDate=2020-01-01T00:00:00\n' % loc)
+    infodir = '/store/info' if c['reach'] == 'info-link' else phys + '/info'
+    if c['reach'] == 'info-link':
+        W.file('/store/files/%s' % nm, 'decoy outside the trash\n').file('/store/files/bystander', 'decoy\n')
+    W.file('%s/%s.trashinfo' % (infodir, nm), '[Trash Info]\nPath=%s\nDeletionDate=2020-01-01T00:00:00\n' % loc)
     up = '../' * (phys.count('/') + 1)
     add_payload(W, '%s/files/%s' % (phys, nm), c['pl'], up)
-    scen.add_trashed(W, phys, 'bystander', '/home/u/w/bystander' if not rel else 'w/bystander', '2024-05-05T00:00:00')
+    if c['reach'] == 'info-link':
+        W.file(infodir + '/bystander.trashinfo', '[Trash Info]\nPath=/home/u/w/bystander\nDeletionDate=2024-05-05T00:00:00\n')
+        W.file(phys + '/files/bystander', 'bystander\n')
+    else:
+        scen.add_trashed(W, phys, 'bystander', '/home/u/w/bystander' if not rel else 'w/bystander', '2024-05-05T00:00:00')
     if c['orphan']:
         W.link(phys + '/files/orphan-link', '/outside/dir')
     argv = {'empty': ['trash-empty'], 'empty0': ['trash-empty', '0'], 'rm-star': ['trash-rm', '*'], 'rm-exact': ['trash-rm', 'orig-name']}[c['cmd']]
@@ -92,7 +107,7 @@ def run_case(c):
         before = sb.snapshot()
         r = sb.run(argv, env=env, cwd='/', now='2024-05-06T07:08:09', plan={'resolve': 'all'})
         after = sb.snapshot()
-    zones = [phys + '/files', phys + '/info']
+    zones = [phys + '/files', infodir]
     detail = {'argv': argv, 'exit': r.exit, 'err': r.err[-300:], 'trash': phys}
     dims = '%s|%s|%s|%s|o%d' % (c['pl'], c['nm'], c['reach'], c['cmd'], c['orphan'])
     frame = world.diff(before, after, dir_mtime=False, ignore=zones)
@@ -106,7 +121,11 @@ def run_case(c):
         return {'verdict': 'viol', 'sig': 'C11|mutating-syscall-outside-files-info|op=%s|%s' % (outside[0][1], blame), 'klass': 'syscall-outside', 'nontrivial': nt,
                 'detail': dict(detail, ops=outside[:6])}
     # the victim must be gone entirely (whole removal), the bystander only for full purges
-    vs = scen.entry_state(before, after, phys, nm)
+    if c['reach'] == 'info-link':
+        gone = ('%s/%s.trashinfo' % (infodir, nm)) not in after and not world.under(after, '%s/files/%s' % (phys, nm))
+        vs = 'purged' if gone else 'not-purged'
+    else:
+        vs = scen.entry_state(before, after, phys, nm)
     if vs != 'purged':
         return {'verdict': 'viol', 'sig': 'C11|entry-not-purged-whole|state=%s|payload=%s|name=%s' % (vs, c['pl'], c['nm']), 'klass': 'not-purged', 'nontrivial': nt, 'detail': detail}
     return {'verdict': 'ok', 'klass': 'contained', 'nontrivial': nt, 'detail': detail}
